@@ -31,7 +31,10 @@ from simcore import world
 from simcore.choices import Choices
 from simcore.runner import HarnessLimit, RunCtx
 
+import threading
+
 from circuits import BaseComponent, Event, handler
+from circuits.core.events import generate_events
 
 ID = 'C05'
 LEVEL = 'exploration'
@@ -75,10 +78,11 @@ ASSUMPTIONS = [
 PROBES = ['complete-fired', 'complete-fired-from-task-phase', 'nested-complete', 'roots-in-flight>=2', 'complete-channels',
           'tracked-gen-step-fire', 'tracked-cancel', 'tracked-stop', 'tracked-raise-plain', 'tracked-raise-gen',
           'two-generators-one-event', 'unregister-root', 'harness-cancel-tracked', 'tracked-handlerless', 'tracked-deaf-channel',
-          'tracked-unhandled-name']
+          'tracked-unhandled-name', 'tracked-call', 'tracked-sequential-call', 'tracked-wait', 'tracked-call-handlerless',
+          'call-timed-out', 'tracked-fire-after-timeout', 'tracked-call-after-timeout']
 TIERS = {
-    'quick': dict(runs=100000, wall=28, chunk=125, cfg=dict(max_nodes=14, max_roots=3, max_ops=8, max_depth=5)),
-    'thorough': dict(runs=500000, wall=600, chunk=500, cfg=dict(max_nodes=40, max_roots=4, max_ops=16, max_depth=5)),
+    'quick': dict(runs=100000, wall=28, chunk=125, shrink_runs=2500, shrink_s=30, cfg=dict(max_nodes=14, max_roots=3, max_ops=8, max_depth=5)),
+    'thorough': dict(runs=500000, wall=600, chunk=500, shrink_runs=2500, shrink_s=30, cfg=dict(max_nodes=40, max_roots=4, max_ops=16, max_depth=5)),
 }
 
 K_CANCEL = 'C05/never-completes/cancelled-descendant'
@@ -94,6 +98,8 @@ CCHANS = ['*', '*', 'x', 'y']              # channel of a generated component
 ECHANS = [None, '*', 'x', 'y', 'deaf']      # channel an event is fired on (None: fire(e) without channel = the firer's channel)
 HPRIOS = [0, 0, 1, -1, 2]
 FANOUT = 3
+FIRES = ('fire', 'call', 'waitobj', 'waitname')   # acts that put a child event into the queue
+TIMEOUTS = [None, 0, 1, 2]                     # timeout= of a call()/wait(); counts generate_events (see 'pulse')
 
 
 class Injected(Exception):
@@ -157,7 +163,7 @@ def _run(ctx, mute):
     av_cancel, av_genraise, av_noh, av_genstep = F_CANCEL in av, F_GENRAISE in av, F_NOH in av, K_GENSTEP in ctx.avoid
     av_stop, av_raise, av_nested = F_STOP in av, F_RAISE in av, F_NESTED in av
     maxdepth = cfg['max_depth']
-    st = dict(eid=0, nid=0, in_h=0, cur_h=0, ticks=0, open=0, gen_steps=0, task_phase=False, pending_unreg=None, passes=0)
+    st = dict(eid=0, nid=0, in_h=0, cur_h=0, ticks=0, open=0, gen_steps=0, calls=0, task_phase=False, pending_unreg=None, passes=0)
     G = {}            # eid -> Ghost
     tracked = []      # eids of complete-requesting events, in fire order
     pend0 = []        # fired handler-less events whose queue pass has not ended yet
@@ -188,7 +194,7 @@ def _run(ctx, mute):
             break
 
     # ---------------------------------------------------------------- program: event trees
-    def gen_node(depth, tracked_above, bud, firer, name=None):
+    def gen_node(depth, tracked_above, bud, firer, name=None, how='fire'):
         bud[0] -= 1
         n = Node()
         st['nid'] += 1
@@ -202,6 +208,8 @@ def _run(ctx, mute):
             n.succ = ch.chance(1, 4, 'success-flag')     # also asks for `<name>_success` (feedback event, observers only log)
         # channel: a name nobody handles, or a handled name fired on a channel nobody listens on, gives a handler-less event
         n.chan = None if name else ECHANS[ch.weighted([5, 2, 1, 1, 1], 'channel')]
+        if how == 'waitname':       # wait('name') listens on the waiting component's own channel: fire(e) without channel reaches it
+            n.chan = None
         n.echan = '*' if name else (n.chan if n.chan is not None else cchan[firer])
         ms = match(n.name, n.echan)
         if not ms and tracked_above and av_noh:
@@ -224,11 +232,20 @@ def _run(ctx, mute):
                     if fan >= FANOUT or bud[0] <= 0:
                         break
                     fan += 1
-                    c = gen_node(depth + 1, n.tracked, bud, s['comp'])
-                    if not (n.tracked and av_cancel):
+                    # a generator handler may call()/wait() for the child instead of just firing it: `yield self.call(c)`,
+                    # `self.fire(c); yield self.wait(c)`, `self.fire(c); yield self.wait(c.name)`
+                    act = FIRES[ch.weighted([3, 5, 1, 1], 'fire-or-call')] if gen else 'fire'
+                    c = gen_node(depth + 1, n.tracked, bud, s['comp'], how=act)
+                    to = None
+                    if act != 'fire':
+                        st['calls'] += 1
+                        to = TIMEOUTS[ch.weighted([5, 2, 1, 1], 'timeout')]
+                    elif not (n.tracked and av_cancel):
                         c.cancel = ch.weighted([6, 1, 1], 'cancel')      # 0 no, 1 by the firing handler, 2 by the harness
-                    acts.append(('fire', c))
-                if not gen and not (n.tracked and av_stop) and ch.chance(1, 8, 'stop'):
+                    acts.append((act, c, to))
+                # (an event that is waited for must reach its handlers: never cancelled, never stopped - else the waiting handler
+                #  hangs for ever, which is C06's subject and would only produce undrained closures here)
+                if not gen and how == 'fire' and not (n.tracked and av_stop) and ch.chance(1, 8, 'stop'):
                     acts.insert(ch.draw(len(acts) + 1, 'stop-pos'), ('stop',))
                 if not (n.tracked and (av_genraise if gen else av_raise)) and ch.chance(1, 8, 'raise'):
                     acts = acts[:ch.draw(len(acts) + 1, 'raise-pos')] + [('raise',)]
@@ -246,7 +263,7 @@ def _run(ctx, mute):
         is_unreg = ch.chance(1, 6, 'root-is-unregister')
         roots.append(gen_node(0, False, [ch.randint(1, cfg['max_nodes'], 'tree-budget')], ch.draw(ncomp, 'firer'),
                               'prepare_unregister' if is_unreg else None))
-    BOUND = 4 * st['gen_steps'] + maxdepth + 10
+    BOUND = 4 * st['gen_steps'] + 6 * st['calls'] + maxdepth + 10
 
     def strip(n, above=False):
         """attribution re-run (see run_one): leave the muted kinds out of the program"""
@@ -261,7 +278,7 @@ def _run(ctx, mute):
                 for a in acts:
                     if a[0] == 'stop' and F_STOP in mute or a[0] == 'raise' and (F_GENRAISE if sl['gen'] else F_RAISE) in mute:
                         continue
-                    if a[0] == 'fire':
+                    if a[0] in FIRES:
                         if F_CANCEL in mute and a[1].cancel == 1:
                             continue
                         if F_CANCEL in mute:
@@ -336,7 +353,8 @@ def _run(ctx, mute):
         ctx.log('F', g.eid, node.name, node.echan, g.nslots, parent or 0, int(via_gen), int(node.complete), int(node.cc), int(st['task_phase']))
         return g
 
-    def do_fire(comp, node, parent, via_gen, indent='    '):
+    def do_fire(comp, node, parent, via_gen, indent='    ', how='fire', kw=None):
+        """fires the event; for how='call' returns (ghost, the callEvent generator) - circuits fires it when that generator is started"""
         e = Event.create(node.name)
         if node.complete:
             e.complete = True
@@ -346,10 +364,12 @@ def _run(ctx, mute):
             e.complete_channels = ('cc',)
             ctx.stat('complete-channels')
         g = new_ghost(node, e, parent, via_gen)
-        ctx.trace('%sfire e%d %s%s%s%s%s%s' % (indent, g.eid, node.name, (' on %s' % node.chan if node.chan else '') +
+        ctx.trace('%s%s e%d %s%s%s%s%s%s' % (indent, 'yield call%s' % (kw and '(timeout=%d)' % kw['timeout'] or '') if how == 'call' else 'fire', g.eid, node.name, (' on %s' % node.chan if node.chan else '') +
                                            ('' if g.nslots else ' [no handler]'), ' complete=True' if node.complete else '',
                                          ' complete_channels=cc' if node.cc else '', ' success=True' if node.succ else '',
                                          ' (child of e%d%s)' % (parent, ', from a generator step' if via_gen else '') if parent else ''))
+        if how == 'call':
+            return g, (comp.call(e, **kw) if node.chan is None else comp.call(e, node.chan, **kw))
         if node.chan is None:
             comp.fire(e)
         else:
@@ -367,28 +387,40 @@ def _run(ctx, mute):
         ctx.log('C', g.eid, who)
         ctx.trace('%se%d.cancel() by the %s' % ('      ' if who == 'firer' else '', g.eid, who))
 
-    def run_step(comp, event, g, acts, via_gen):
+    def run_act(comp, event, g, act, via_gen):
+        """one action of a handler; returns the generator to `yield` for call/wait acts, else None"""
         tr = g.node.tracked
-        for act in acts:
+        if act[0] in FIRES:
+            if via_gen and tr:
+                ctx.stat('tracked-gen-step-fire')
             if act[0] == 'fire':
-                if via_gen and tr:
-                    ctx.stat('tracked-gen-step-fire')
                 c = do_fire(comp, act[1], g.eid, via_gen, '      ')
                 if act[1].cancel == 1:
                     cancel(c, 'firer')
-            elif act[0] == 'stop':
-                event.stop()
-                g.stopped = True
-                ctx.stat('fault:stop')
-                if tr:
-                    ctx.stat('tracked-stop')
-                ctx.trace('      e%d.stop()' % g.eid)
-            else:
-                ctx.stat('fault:raise-gen' if via_gen else 'fault:raise-plain')
-                if tr:
-                    ctx.stat('tracked-raise-gen' if via_gen else 'tracked-raise-plain')
-                ctx.trace('      raise')
-                raise Injected('injected into a handler of e%d' % g.eid)
+                return None
+            if tr:
+                ctx.stat('tracked-call' if act[0] == 'call' else 'tracked-wait')
+                if not act[1].nslots:
+                    ctx.stat('tracked-call-handlerless')
+            kw = {} if act[2] is None else dict(timeout=act[2])
+            if act[0] == 'call':
+                return do_fire(comp, act[1], g.eid, True, '      ', 'call', kw)[1]
+            c = do_fire(comp, act[1], g.eid, True, '      ')
+            ctx.trace('      yield wait(%s%s)' % ('e%d' % c.eid if act[0] == 'waitobj' else repr(act[1].name), ', timeout=%d' % act[2] if kw else ''))
+            return comp.wait(c.ev if act[0] == 'waitobj' else act[1].name, **kw)
+        if act[0] == 'stop':
+            event.stop()
+            g.stopped = True
+            ctx.stat('fault:stop')
+            if tr:
+                ctx.stat('tracked-stop')
+            ctx.trace('      e%d.stop()' % g.eid)
+            return None
+        ctx.stat('fault:raise-gen' if via_gen else 'fault:raise-plain')
+        if tr:
+            ctx.stat('tracked-raise-gen' if via_gen else 'tracked-raise-plain')
+        ctx.trace('      raise')
+        raise Injected('injected into a handler of e%d' % g.eid)
 
     # ---------------------------------------------------------------- oracle, fire-time part
     def on_complete_fired(x):
@@ -505,22 +537,44 @@ def _run(ctx, mute):
         idx, gen = s['idx'], s['gen']
 
         def body(self, event, g, steps):
-            for i, acts in enumerate(steps):
-                if i:
-                    yield None
-                st['in_h'] += 1
-                st['cur_h'] = g.eid
-                ctx.log('S', g.eid, idx, i)
-                ctx.trace('    generator h%d of e%d: step %d%s' % (idx, g.eid, i, ' (last)' if i == len(steps) - 1 else ''))
-                try:
-                    run_step(self, event, g, acts, True)
-                except Injected:
-                    g.open -= 1
-                    st['open'] -= 1
-                    g.gen_raised = True
-                    raise
-                finally:
-                    st['in_h'] -= 1
+            try:
+                for i, acts in enumerate(steps):
+                    if i:
+                        yield None
+                    st['in_h'], st['cur_h'] = 1, g.eid
+                    ctx.log('S', g.eid, idx, i)
+                    ctx.trace('    generator h%d of e%d: step %d%s' % (idx, g.eid, i, ' (last)' if i == len(steps) - 1 else ''))
+                    prev = None
+                    for act in acts:
+                        if prev == 'timeout' and act[0] in FIRES and g.node.tracked:
+                            ctx.stat('tracked-fire-after-timeout' if act[0] == 'fire' else 'tracked-call-after-timeout')
+                        if prev in ('call', 'waitobj', 'waitname') and act[0] == 'call' and g.node.tracked:
+                            ctx.stat('tracked-sequential-call')
+                        w = run_act(self, event, g, act, True)
+                        prev = act[0]
+                        if w is not None:
+                            st['in_h'] = 0
+                            try:
+                                yield w             # resumed by circuits when the called / awaited event is done
+                                how = 'resumed'
+                            except TimeoutError:    # ... or with TimeoutError when timeout= generate_events have passed
+                                how = prev = 'timeout'
+                                ctx.stat('call-timed-out')
+                            st['in_h'], st['cur_h'] = 1, g.eid
+                            ctx.log('R', g.eid, idx, i, how)
+                            ctx.trace('    generator h%d of e%d: %s in step %d' % (idx, g.eid, 'resumed' if how == 'resumed' else 'TimeoutError caught', i))
+                    st['in_h'] = 0
+            except Injected:
+                st['in_h'] = 0
+                g.open -= 1
+                st['open'] -= 1
+                g.gen_raised = True
+                raise
+            except GeneratorExit:
+                raise
+            except BaseException as e:      # circuits would swallow it as a handler error: surface it as a harness error instead
+                st.setdefault('bug', 'generator h%d of e%d: %r' % (idx, g.eid, e))
+                raise
             g.open -= 1
             st['open'] -= 1
 
@@ -545,9 +599,13 @@ def _run(ctx, mute):
             st['in_h'] += 1
             st['cur_h'] = eid
             try:
-                run_step(self, event, g, steps[0], False)
+                for act in steps[0]:
+                    run_act(self, event, g, act, False)
             except Injected:
                 g.plain_raised = True
+                raise
+            except BaseException as e:
+                st.setdefault('bug', 'h%d of e%d: %r' % (idx, eid, e))
                 raise
             finally:
                 st['in_h'] -= 1
@@ -593,6 +651,8 @@ def _run(ctx, mute):
 
     # ---------------------------------------------------------------- history
     def after_op():
+        if st.get('bug'):
+            raise RuntimeError('exception in the harness part of a generated handler: ' + st['bug'])
         for g in list(G.values()):
             if g.state == 'pending' and g.node.cancel == 2:
                 cancel(g, 'harness')
@@ -604,6 +664,8 @@ def _run(ctx, mute):
             st['ticks'] += 1
             ctx.log('T')
             ctx.trace('tick()')
+            if pulse:
+                root.fire(generate_events(threading.RLock(), 0), '*')
             st['task_phase'] = True
             root.tick()
             st['task_phase'] = False
@@ -636,6 +698,8 @@ def _run(ctx, mute):
         else:
             do_fire(comps[node.firer], node, 0, False, '')
 
+    # pulse: fire generate_events before every tick(), as a running manager does (it is what the timeouts of call()/wait() count)
+    pulse = ch.chance(1, 2, 'generate_events-pulse')
     todo = list(roots)
     for _ in range(ch.randint(1, cfg['max_ops'], 'nops')):
         if ctx.violations:
@@ -649,7 +713,7 @@ def _run(ctx, mute):
             do_tick('tick')
     while todo and not ctx.violations:
         fire_root(todo.pop(0))
-    cap = 40 + 3 * st['gen_steps'] + 4 * st['nid'] + 2 * BOUND
+    cap = 40 + 3 * st['gen_steps'] + 8 * st['calls'] + 4 * st['nid'] + 2 * BOUND
     n = 0
     while not ctx.violations:
         waiting = do_tick('tick')
